@@ -160,6 +160,9 @@ func VerifAddData(uuid dvid.UUID, svc DataService) {
 	r := manager.repos[uuid]
 	r.data[svc.DataName()] = svc
 	manager.iids[svc.InstanceID()] = svc
+	if svc.DataUUID() != "" {
+		manager.dataByUUID[svc.DataUUID()] = svc
+	}
 }
 
 func VerifSetLocked(uuid dvid.UUID, locked bool) {
